@@ -154,7 +154,11 @@ class Vector(object):
 
     def angle(self, other):
         """Returns the angle (in radians) enclosed by both vectors."""
-        return math.acos((self * other) / (self.length() * other.length()))
+        cosine = (self * other) / (self.length() * other.length())
+        # Rounding can push the quotient slightly outside of [-1, 1] for
+        # parallel or anti-parallel vectors, which acos does not accept
+        cosine = max(-1.0, min(1.0, cosine))
+        return math.acos(cosine)
 
     def normalized(self):
         """Return the normalized version of the vector, that is a vector
